@@ -84,7 +84,7 @@ CHECKS = {
   design="7/C18"),
  "C19": dict(
   technique="black-box hostile-input monitor on the real server binary with per-request CPU accounting (/proc/<pid>/stat) and interleaved reference-checked probe requests; liveness restated as bounded progress",
-  text="A seeded shuffle of hostile requests (broken JSON, every field x every JSON type, numbers beyond 64-bit limits, skew/period extremes, unknown/contradictory suites, oversized bodies, large echoed fields, every method x path, raw TCP fragments) is sent sequentially (server CPU time attributed per request: > 2 CPU-s is a violation) and on 32 connections; every response must be complete, 2xx only with the endpoint's success object; refused skews must not accept; probes judged by the C18 oracle (including large-response probes in flight with the hostile traffic) must stay correct; for ten request classes four equal batches are sent and the server's resident memory (/proc/<pid>/status) is read after each: steady growth per batch is a violation (something kept per request for good); a well-formed request left unanswered twice while GET / answers is a violation; the process must stay alive. Unbounded 'eventually' is not decidable by a run; a timeout with an idle server is inconclusive.",
+  text="A seeded shuffle of hostile requests (broken JSON, every field x every JSON type, numbers beyond 64-bit limits, skew/period extremes, unknown/contradictory suites, oversized bodies, large echoed fields, every method x path, raw TCP fragments) is sent sequentially (server CPU time attributed per request: > 2 CPU-s is a violation) and on 32 connections; every response must be complete, 2xx only with the endpoint's success object; refused skews must not accept; probes judged by the C18 oracle (including large-response probes in flight with the hostile traffic) must stay correct; for ten request classes four equal batches are sent and the server's resident memory (/proc/<pid>/status) is read after each: steady growth per batch is a violation (something kept per request for good); a well-formed request left unanswered twice while GET / answers is a violation; the documentation assets are requested concurrently under eight Accept-Encoding values (rounds meeting an expired compressed-file cache; freshly started servers asked by one client alone and by 40 clients with the same first request; concurrent byte ranges) and every body, decoded by the coding its own Content-Encoding names, must equal the bytes served for identity; thorough repeats those rounds on a -race build and reads its log (races whose accesses are the module's are violations, races inside dependencies are recorded); the process must stay alive. Unbounded 'eventually' is not decidable by a run; a timeout with an idle server is inconclusive.",
   note="Trusted: Linux /proc CPU accounting (100 Hz ticks), Go net/http client. Work is measured in CPU time, not latency, so machine load cannot raise an alarm.",
   design="7/C19"),
  "C20": dict(
